@@ -226,7 +226,7 @@ fn aco_extra(name: &str, params: &Value) -> Extra<TspProblem> {
         let mut old = prev.lock().unwrap();
         if let Some(pm) = &pm {
             finite = pm.iter().flatten().all(|v| v.is_finite() && *v >= 0.0) as i64;
-            sym = (0..d).all(|a| (0..d).all(|b| pm[a][b].to_bits() == pm[b][a].to_bits())) as i64;
+            sym = (0..d).all(|a| (0..d).all(|b| near(pm[a][b], pm[b][a], 1e-12))) as i64;
             if minmax {
                 bounds = (0..d).all(|a| (0..d).all(|b| a == b || (pm[a][b] >= lo && pm[a][b] <= hi))) as i64;
             }
@@ -246,38 +246,29 @@ fn aco_extra(name: &str, params: &Value) -> Extra<TspProblem> {
                 }).unwrap_or(false) as i64;
             }
             if (step == "AsPheromoneUpdate" || step == "MinMaxPheromoneUpdate") && old.len() == d {
-                // expected matrix: evaporate every trail, then deposit symmetrically on consecutive cities of the rewarded tours
-                let mut want: Vec<Vec<f64>> = old.iter().map(|r| r.iter().map(|v| v * (1.0 - rho)).collect()).collect();
-                let mut reinforced = vec![vec![false; d]; d];
-                let rewarded: Vec<&Individual<P>> = if minmax {
-                    tours.iter().skip(1).min_by(|a, b| a.objective().value().total_cmp(&b.objective().value())).into_iter().collect()
+                // expected matrix: evaporate every trail, then deposit symmetrically on consecutive cities of the rewarded
+                // tours (ant system: all sampled tours; max-min: ONE best sampled tour -- which one of several equally short
+                // tours is not part of the statement, so any of them may explain the matrix), then (max-min) clamp
+                let sampled: Vec<&Individual<P>> = tours.iter().skip(1).collect();
+                let candidates: Vec<Vec<&Individual<P>>> = if minmax {
+                    let best = sampled.iter().map(|t| t.objective().value()).fold(f64::INFINITY, f64::min);
+                    sampled.iter().filter(|t| t.objective().value() == best).map(|t| vec![*t]).collect()
                 } else {
-                    tours.iter().skip(1).collect()
+                    vec![sampled.clone()]
                 };
-                for t in rewarded {
-                    let delta = if minmax { 1.0 } else { c } / t.objective().value();
-                    let s = t.solution();
-                    for k in 1..s.len() {
-                        let (a, b) = (s[k - 1], s[k]);
-                        want[a][b] += delta;
-                        want[b][a] += delta;
-                        reinforced[a][b] = true;
-                        reinforced[b][a] = true;
-                    }
-                }
-                cell_ok = (0..d).all(|a| {
-                    (0..d).all(|b| {
-                        let w = want[a][b];
-                        let got = pm[a][b];
-                        let close = |x: f64, y: f64| (x - y).abs() <= 1e-9 * y.abs().max(1e-300);
-                        if !minmax {
-                            close(got, w)
-                        } else {
-                            // evaporate, deposit (a tour crosses an edge at most once), then clamp -- for every trail
-                            let _ = reinforced[a][b];
-                            close(got, w.clamp(lo, hi))
+                let close = |x: f64, y: f64| (x - y).abs() <= 1e-9 * y.abs().max(1e-300);
+                cell_ok = candidates.iter().any(|rewarded| {
+                    let mut want: Vec<Vec<f64>> = old.iter().map(|r| r.iter().map(|v| v * (1.0 - rho)).collect()).collect();
+                    for t in rewarded {
+                        let delta = if minmax { 1.0 } else { c } / t.objective().value();
+                        let s = t.solution();
+                        for k in 1..s.len() {
+                            let (a, b) = (s[k - 1], s[k]);
+                            want[a][b] += delta;
+                            want[b][a] += delta;
                         }
-                    })
+                    }
+                    (0..d).all(|a| (0..d).all(|b| a == b || close(pm[a][b], if minmax { want[a][b].clamp(lo, hi) } else { want[a][b] })))
                 }) as i64;
             }
             *old = pm.clone();
